@@ -2,6 +2,7 @@
 package lexer
 
 import (
+	"bytes"
 	"errors"
 	"fmt"
 	"io"
@@ -62,7 +63,20 @@ type Lexer struct {
 // New creates a new lexical analyzer for the EBNF language.
 // EBNF (Extended Backus-Naur Form) is used to define context-free grammars and their corresponding languages.
 func New(filename string, src io.Reader) (*Lexer, error) {
-	in, err := input.New(filename, src, bufferSize)
+	// A specification is small: it is read as a whole and always ends with a line terminator.
+	//
+	//   - The input buffer reports the end of input together with the last character,
+	//     so a token must be followed by some character to be recognized.
+	//   - The input buffer loads the other half again when the scanner steps back over the boundary of its two halves,
+	//     so the buffer is made large enough to hold the whole input in its first half.
+	data, err := io.ReadAll(src)
+	if err != nil {
+		return nil, err
+	}
+
+	data = append(data, '\n')
+
+	in, err := input.New(filename, bytes.NewReader(data), max(bufferSize, len(data)+1))
 	if err != nil {
 		return nil, err
 	}
@@ -79,6 +93,12 @@ func (l *Lexer) NextToken() (lexer.Token, error) {
 		// Read the next character from the input stream.
 		r, err := l.in.Next()
 		if err != nil {
+			// The input ended in the middle of a lexeme (e.g. an unterminated comment):
+			// the state reached so far still needs to be evaluated.
+			if errors.Is(err, io.EOF) && curr != 0 {
+				return l.evalToken(curr)
+			}
+
 			return lexer.Token{}, err
 		}
 
@@ -89,19 +109,23 @@ func (l *Lexer) NextToken() (lexer.Token, error) {
 			// Retract one character, as the last read character did not belong to the current token.
 			l.in.Retract()
 
-			// Evaluate the final state of the DFA.
-			token := l.evalDFA(curr)
-
-			switch token.Terminal {
-			case ERR:
-				return lexer.Token{}, errors.New(token.Lexeme)
-			case WS, EOL, COMMENT:
-				// Skip whitespaces, newlines, and comments.
-				return l.NextToken()
-			default:
-				return token, nil
-			}
+			return l.evalToken(curr)
 		}
+	}
+}
+
+// evalToken evaluates the final state of the DFA and returns the token recognized, if any.
+func (l *Lexer) evalToken(state int) (lexer.Token, error) {
+	token := l.evalDFA(state)
+
+	switch token.Terminal {
+	case ERR:
+		return lexer.Token{}, errors.New(token.Lexeme)
+	case WS, EOL, COMMENT:
+		// Skip whitespaces, newlines, and comments.
+		return l.NextToken()
+	default:
+		return token, nil
 	}
 }
 
